@@ -1349,3 +1349,13 @@ V("C36-silent-inputs-cloned","C36",GL,"""	sort.Sort(fsChain)
 	"sort"
 '''}])
 V("C25-repeated-ec-rule-gets-first-list","C25","pkg/services/object/put/distributed.go","fin, err := handleECRule(len(repRules)+j, j, payloadParts, ecRules[ecRuleIdx])","fin, err := handleECRule(i, j, payloadParts, ecRules[ecRuleIdx])",rule="C25.R5")
+V("C42-switch-to-rw-skips-version-check","C42","pkg/local_object_storage/metabase/mode.go","""		err = db.initWritable(false)""","""		err = db.init(false)""",rule="C42.R7")
+V("C45-netmap-update-ends-maintenance","C45","cmd/neofs-node/netmap.go","""	c.startMaintenance()
+
+	err := c.updateNetMapState(netmaprpc.NodeStateMaintenance)
+	if err != nil {""","""	c.startMaintenance()
+
+	err := c.updateNetMapState(netmaprpc.NodeStateMaintenance)
+	if err != nil {
+		c.isMaintenance.Store(false)""",rule="C45.R3")
+V("C41-nil-stream-with-error","C41","pkg/local_object_storage/blobstor/fstree/head.go","""				return nil, f, io.ErrUnexpectedEOF""","""				return nil, nil, io.ErrUnexpectedEOF""",rule="C41.R4")
